@@ -615,6 +615,10 @@ func c02R4(c *Ctx) {
 			if isNilConst(stored) && isNilConst(returned) {
 				continue
 			}
+			// cached as nil on a path that knows the returned value to be nil
+			if isNilConst(stored) && knownNil(returned, b) {
+				continue
+			}
 			if stored != returned && path(stored) != path(returned) {
 				why = "the cached " + name + " is not the " + name + " returned for this request: a later cache hit reports a different " + name + " than the fetch that filled the cache"
 			}
